@@ -27,7 +27,7 @@ if [ -z "${SKIP_CONFIRM:-}" ]; then
   mkdir -p "$WT/$dest"; cp "$D/$demo" "$WT/$dest/"
   (cd "$WT" && timeout 300 bash -c "$cmd") > /tmp/mut/run/$name.demo_clean.log 2>&1; c1=$?
   rm -f "$WT/$dest/$demo"
-  if ! git -C "$WT" apply "$D/patch.diff"; then echo "$res PATCH-DOES-NOT-APPLY"; exit 2; fi
+  if ! git -C "$WT" apply "$D/patch.diff" 2>/dev/null && ! git -C "$WT" apply --3way "$D/patch.diff" >/dev/null 2>&1; then echo "$res PATCH-DOES-NOT-APPLY"; exit 2; fi
   (cd "$WT" && go build ./... ) > /tmp/mut/run/$name.build.log 2>&1 || { echo "$res BUILD-FAILS"; exit 2; }
   "$VER/tools/repo_suite.sh" "$WT" > /tmp/mut/run/$name.suite.log 2>&1; s=$?
   cp "$D/$demo" "$WT/$dest/"
@@ -35,7 +35,7 @@ if [ -z "${SKIP_CONFIRM:-}" ]; then
   rm -f "$WT/$dest/$demo"
   res="$res demo_clean=$c1 suite=$s demo_mut=$c2"
 else
-  git -C "$WT" apply "$D/patch.diff" || { echo "$res PATCH-DOES-NOT-APPLY"; exit 2; }
+  git -C "$WT" apply "$D/patch.diff" 2>/dev/null || git -C "$WT" apply --3way "$D/patch.diff" >/dev/null 2>&1 || { echo "$res PATCH-DOES-NOT-APPLY"; exit 2; }
 fi
 [ $# -eq 0 ] && set -- "$prop"
 for id in "$@"; do
